@@ -223,9 +223,9 @@ func (V *Verifier) changedFields(enc *EncInfo, p *EncPath) []postField {
 // ---------------------------------------------------------------- bootstrap
 
 var frameInfo = map[string]string{
-	"sse_bin.SseBinary":    "frame len=MsgBodyLen body=Body cksum=Checksum alg=bsum256",
-	"szse_bin.SzseBinary":  "frame len=BodyLength body=Body cksum=Checksum alg=bsum256",
-	"risk_bin.RcBinary":    "frame len=MsgBodyLen body=Body",
+	"sse_bin.SseBinary":     "frame len=MsgBodyLen body=Body cksum=Checksum alg=bsum256",
+	"szse_bin.SzseBinary":   "frame len=BodyLength body=Body cksum=Checksum alg=bsum256",
+	"risk_bin.RcBinary":     "frame len=MsgBodyLen body=Body",
 	"sample_bin.RootPacket": "frame len=PayloadLen body=Payload cksum=Checksum alg=crc32",
 }
 
@@ -289,8 +289,13 @@ func (V *Verifier) Bootstrap(outDir string) error {
 				hdr += ", " + fi
 			}
 			fmt.Fprintf(&b, "//@ layout %s [%s]\n", mt.Named.Obj().Name(), hdr)
+			fills := V.scoutFills(mt)
 			for _, d := range V.scoutDyns(mt) {
-				fmt.Fprintf(&b, "//@   dyn %s by %s in %s\n", d.Field, d.Key, d.Table)
+				w := ""
+				if fills[d.Table] {
+					w = " fills"
+				}
+				fmt.Fprintf(&b, "//@   dyn %s by %s in %s%s\n", d.Field, d.Key, d.Table, w)
 			}
 			for _, p := range enc.Paths {
 				fmt.Fprintf(&b, "//@   path %s\n", V.pathKey(enc, p))
